@@ -3,6 +3,7 @@ package c11
 import (
 	"fmt"
 	"math"
+	"runtime/debug"
 	"strings"
 
 	"github.com/tendermint/tendermint/crypto/ed25519"
@@ -31,7 +32,11 @@ type wireMut struct {
 	// may refuse it; that is counted, and no verdict is demanded.  If the
 	// decoder lets it through the ordinary oracle applies.
 	malformed bool
-	fs        []func(l *tmproto.LightClientAttackEvidence)
+	// lenient: a well-formed message that a careful decoder may still refuse (a
+	// validator whose address is not that of its public key).  Refusal anywhere is
+	// accepted; admission of invalid evidence and panics are not.
+	lenient bool
+	fs      []func(l *tmproto.LightClientAttackEvidence)
 }
 
 func (m *wireMut) apply(pb *tmproto.Evidence) {
@@ -86,7 +91,7 @@ func (h *hist) newWireMut(ev *types.LightClientAttackEvidence, insufficient bool
 		case 2:
 			setTotal("signed-power", signed) // signed > total*2/3 if this were believed
 		case 3:
-			setTotal("signed-power+1", signed+1)
+			setTotal("signed-power-plus-1", signed+1)
 		case 4:
 			setTotal("half-real", real/2+1)
 		case 5:
@@ -96,11 +101,11 @@ func (h *hist) newWireMut(ev *types.LightClientAttackEvidence, insufficient bool
 		case 7:
 			setTotal("maxint64", math.MaxInt64)
 		case 8:
-			setTotal("cap+1", types.MaxTotalVotingPower+1)
+			setTotal("cap-plus-1", types.MaxTotalVotingPower+1)
 		case 9:
 			setTotal("0", 0)
 		case 10:
-			setTotal("real+1", real+1)
+			setTotal("real-plus-1", real+1)
 		default:
 			setTotal("3x-real", 3*real)
 		}
@@ -108,13 +113,13 @@ func (h *hist) newWireMut(ev *types.LightClientAttackEvidence, insufficient bool
 	pickProposer := func() {
 		switch k := h.r.Intn(8); k {
 		case 0, 1:
-			i := h.r.Intn(n)
+			fixed, err := vals.Validators[h.r.Intn(n)].ToProto() // fixed content, so that re-applying changes nothing
+			if err != nil {
+				panic(err)
+			}
 			add("proposer=other-member", func(l *tmproto.LightClientAttackEvidence) {
-				vs := l.ConflictingBlock.ValidatorSet
-				if i < len(vs.Validators) {
-					cp := *vs.Validators[i]
-					vs.Proposer = &cp
-				}
+				cp := *fixed
+				l.ConflictingBlock.ValidatorSet.Proposer = &cp
 			})
 		case 2, 3:
 			k := ed25519.GenPrivKeyFromSecret([]byte(fmt.Sprintf("c11-foreign-proposer-%d", h.r.Int63())))
@@ -201,6 +206,19 @@ func (h *hist) newWireMut(ev *types.LightClientAttackEvidence, insufficient bool
 			}
 		})
 	}
+	if h.r.Intn(7) == 0 {
+		// the validators hash covers public key and power only: the address field is the sender's choice
+		i := h.r.Intn(n)
+		addr := make([]byte, 20)
+		h.r.Read(addr)
+		m.lenient = true
+		add(forgedValsetAddress, func(l *tmproto.LightClientAttackEvidence) {
+			vs := l.ConflictingBlock.ValidatorSet
+			if i < len(vs.Validators) && vs.Validators[i] != nil {
+				vs.Validators[i].Address = addr
+			}
+		})
+	}
 	if len(m.fs) == 0 {
 		pickTotal()
 	}
@@ -253,13 +271,49 @@ func (h *hist) countWire(m *wireMut, gerr error) {
 
 // guard runs a call into the code under test; a panic there on delivered
 // evidence is a finding of its own, not a harness failure.
-func (h *hist) guard(op string, f func() error) (err error) {
+func (h *hist) guard(op string, muts []*wireMut, f func() error) (err error) {
 	defer func() {
 		if r := recover(); r != nil {
 			err = fmt.Errorf("PANIC: %v", r)
-			h.violation("panic-on-delivered-evidence-"+op, fmt.Sprintf("%s panicked on evidence delivered over the wire: %v", op, r), nil)
-			h.dead = true // the pool may be left half-updated
+			key := "panic-on-delivered-evidence-" + op
+			var names []string
+			for _, m := range muts {
+				if m != nil {
+					names = append(names, m.name)
+					if strings.Contains(m.name, forgedValsetAddress) {
+						key = forgedValsetAddressKey
+					}
+				}
+			}
+			var frames []string
+			for _, l := range strings.Split(string(debug.Stack()), "\n") {
+				if strings.Contains(l, "tendermint/") && !strings.HasPrefix(l, "\t") && len(frames) < 8 {
+					if i := strings.IndexByte(l, '('); i > 0 {
+						l = l[:i]
+					}
+					frames = append(frames, l)
+				}
+			}
+			h.violation(key, fmt.Sprintf("%s panicked on evidence delivered over the wire: %v", op, r),
+				map[string]interface{}{"wire_mutations": names, "stack": frames})
+			h.c.Count("panics_on_delivered_evidence", 1)
 		}
 	}()
 	return f()
+}
+
+const (
+	forgedValsetAddress    = "valset-address-forged"
+	forgedValsetAddressKey = "lca-forged-valset-address-panics"
+	misattributed          = "byz-misattributed-by-commit-address"
+	misattributedKey       = "lca-equivocation-misattributed-by-commit-sig-address"
+)
+
+func (h *hist) anyLenient(list []types.Evidence) bool {
+	for _, ev := range list {
+		if m := h.wire[ev]; m != nil && m.lenient {
+			return true
+		}
+	}
+	return false
 }
